@@ -54,6 +54,9 @@ impl ReaderKind {
 #[derive(Debug, Clone, PartialEq, Eq, serde::Serialize, serde::Deserialize)]
 pub enum Op {
     GenNew,
+    /// (hook) replace the generator by one whose state says `mark - back` bytes were consumed
+    /// (mark 0: 4,224,281,216; mark 1: 2^32), so that later updates cross the limits
+    GenInject(u8, u16),
     GenUpdate(DataSpec),
     GenFinalize(u8),
     GenFinalizeDefault,
@@ -183,6 +186,19 @@ pub fn exec(api: &dyn GlobalApi, s: &Sequence, st: &CaseStats) -> Result<Vec<Str
                     g = va.generator();
                     fed = 0;
                     "new".into()
+                }
+                Op::GenInject(mark, back) => {
+                    let m: u64 = if mark % 2 == 0 { vmodel::MAX_LEN } else { 1u64 << 32 };
+                    let total = (m - *back as u64).min(u32::MAX as u64) as u32;
+                    let spec = gens::StateSpec { buckets: gens::BucketClass::Plausible, len: gens::LenClass::Exact(total), seed: total as u64 };
+                    match va.gen_from_state(&spec.render(v)) {
+                        Some(x) => {
+                            g = x;
+                            fed = 1 << 20;
+                            format!("inject {}", total)
+                        }
+                        None => "n/a".into(),
+                    }
                 }
                 Op::GenUpdate(d) => {
                     let d = d.render();
@@ -470,6 +486,7 @@ fn op_strategy(v: vmodel::Variant) -> impl Strategy<Value = Op> {
     let u32s = prop_oneof![any::<u32>(), 0u32..300, Just(4_224_281_216), Just(4_224_281_217), Just(u32::MAX), (0u32..32).prop_map(|s| 1u32 << s)];
     prop_oneof![
         1 => Just(Op::GenNew),
+        2 => (0u8..2, prop_oneof![0u16..40, any::<u16>()]).prop_map(|(m, b)| Op::GenInject(m, b)),
         8 => small_data().prop_map(Op::GenUpdate),
         5 => (0u8..32).prop_map(Op::GenFinalize),
         1 => Just(Op::GenFinalizeDefault),
